@@ -115,8 +115,11 @@ CLAIMS["C09"] = {
             "headers, placeholder class) the annotation is present on exactly the paths where 'converted == original' is "
             "false, carries the original and is compared before escaping; all emission sites of one role (class name, type "
             "variable, function, parameter, result) use one conversion pipeline and classes use the class mode (today four "
-            "reference sites do not: listed known findings with a runtime witness). The string algorithm of the conversion "
-            "itself (UpperCamel/lowerCamel for all identifier strings) is a function over arbitrary strings and is NOT decided.",
+            "reference sites do not: listed known findings with a runtime witness). Of the string algorithm of the conversion two "
+            "structural clauses are decided on its symbolic result: in conversion mode only the name '_' is returned untouched, and "
+            "every '_'-separated part is joined with its first character upper-cased (all parts in class mode, all but the first "
+            "otherwise). What the algorithm yields for particular identifier strings (digits, non-ASCII letters, runs of "
+            "underscores) and whether two Python names collide after conversion are NOT decided.",
     "note": TRUST,
     "technique": "forward slice of the flag + per-path annotation/fact correspondence + pipeline comparison across sites",
     "ref": "DESIGN.md section 5 C09",
